@@ -124,6 +124,9 @@ func RunSeq(plan *Plan, p *Profile) *RunResult {
 	}
 	w.Trace = trace
 	res.Viol = w.Viol
+	if w.Ledger != nil && w.Ledger.Poisoned > 0 {
+		w.Stats.Probes["items-recycled-at-refcount-zero"] += w.Ledger.Poisoned
+	}
 	res.Stats = w.Stats
 	res.Fired = w.Env.Fired
 	res.IOCounts = w.Env.Counts
